@@ -26,9 +26,13 @@ pub static mut VERIF_MMAPPER_FACTORY: Option<fn() -> Box<dyn Mmapper>> = None;
 
 #[cfg(target_pointer_width = "64")]
 pub fn create_vm_map() -> Box<dyn VMMap + Send + Sync> {
+    // With the verification guard on, the singleton always comes from the harness factory, so
+    // that the production implementations are not reachable from (and not encoded for) harnesses.
     #[cfg(mmtk_verif)]
-    if let Some(f) = unsafe { VERIF_VM_MAP_FACTORY } {
-        return f();
+    #[allow(unreachable_code)]
+    {
+        return (unsafe { VERIF_VM_MAP_FACTORY }.expect("mmtk_verif: no VMMap factory installed"))(
+        );
     }
     if !vm_layout().force_use_contiguous_spaces {
         Box::new(map32::Map32::new())
@@ -39,8 +43,10 @@ pub fn create_vm_map() -> Box<dyn VMMap + Send + Sync> {
 
 pub fn create_mmapper() -> Box<dyn Mmapper> {
     #[cfg(mmtk_verif)]
-    if let Some(f) = unsafe { VERIF_MMAPPER_FACTORY } {
-        return f();
+    #[allow(unreachable_code)]
+    {
+        return (unsafe { VERIF_MMAPPER_FACTORY }
+            .expect("mmtk_verif: no Mmapper factory installed"))();
     }
     // TODO: Select a MapStateStorage based on the actuall address space size.
     // For example, choose ByteMapStateStorage for 39-bit or less virtual space.
